@@ -37,7 +37,8 @@ class Cancel(BaseException):
     """stands for cancellation / KeyboardInterrupt: not an Exception"""
 
 
-EXC = {c.__name__: c for c in (ConnErr, SubConnErr, TimeoutErr, Cancel, ValueError, RuntimeError, KeyError)}
+EXC = {c.__name__: c for c in (ConnErr, SubConnErr, TimeoutErr, Cancel, ValueError, RuntimeError, KeyError, asyncio.CancelledError,
+                                KeyboardInterrupt)}
 LISTABLE = {c.__name__: c for c in (ConnErr, ConnectionError, OSError, TimeoutError, ValueError, Exception, pjrpc.exc.BaseError,
                                     pjrpc.exc.IdentityError, TimeoutErr, SubConnErr, TypeError)}
 
